@@ -39,7 +39,7 @@ def giEntryOf (f : Faults) (d : DirInfo) : GiEntry :=
 /-- a configured skip rule excludes directory `d` (gitignore patterns: those of the directories above it) -/
 def excludedDir (c : Cfg) (gisAbove : List GiEntry) (d : Path) : Bool :=
   c.dirsToSkip d || (c.ignoreSubDirs && !c.paths.contains d) ||
-  (c.useGitignore && stackMatch c gisAbove (tokens d) true) ||
+  (c.useGitignore && d != [] && stackMatch c gisAbove (tokens d) true) ||
   (match c.regex with | some r => r d | none => false) ||
   (match c.glob with | some g => g d | none => false)
 
